@@ -30,6 +30,10 @@ impl BlockStore {
     ) -> Either<StoreInfoInstruction, Box<[u8]>> {
         if let Some(info) = info {
             Either::Right(info.data.unwrap())
+        } else if byte_range.length == 0 {
+            // An empty block needs no read; its offset may lie at or beyond the end of the
+            // store when the data before it was cleared.
+            Either::Right(Box::new([]))
         } else {
             Either::Left(StoreInfoInstruction::new_content(
                 Store::Data,
